@@ -72,12 +72,26 @@ impl PathResolver for Recs {
         Value::Null
     }
     fn resolve_ref(&self, reference: &Ref) -> Option<Dict> {
-        self.recs.iter().find(|d| d.get_ref("id") == Some(reference)).map(|d| if is_blank(d) { Dict::new() } else { d.clone() })
+        self.recs
+            .iter()
+            .find(|d| d.get_ref("id") == Some(reference))
+            .or_else(|| self.recs.iter().find(|d| !d.has("id") && d.get_str("aka").map(|s| s.value.as_str()) == Some(reference.value.as_str())))
+            .map(|d| if is_blank(d) { Dict::new() } else { d.clone() })
     }
 }
 
 pub fn is_blank(d: &Dict) -> bool {
     d.has_marker("blank")
+}
+
+/// the name a record is resolved under: its `id`, or for a record without `id` its `aka` (a record that
+/// does not identify itself: the resolver knows it under a name the record does not carry as `id`)
+fn key_token(d: &Dict) -> String {
+    match d.get_ref("id") {
+        Some(r) => vx::h(&r.value),
+        None if d.has("id") => "-".into(),
+        None => d.get_str("aka").map_or("-".into(), |s| vx::h(&s.value)),
+    }
 }
 
 /// the C entry point; `Some(printed filter)` when it returned one (which is destroyed here)
@@ -190,7 +204,8 @@ fn ho_ref(r: Option<&Ref>) -> String {
 /// request for the model of `Namespace::has_relationship`: everything the loop reads from the
 /// namespace is looked up here through the public API and sent along
 ///   rel ISREL TRANSITIVE HASRECIP HASTERM TARGET|- SUBJECT k RECORD*k
-///   RECORD  ::= ID|- n ENTRY*n       ENTRY ::= REF|- RELSYM|- FITS RECIPSYM|- RFITS
+///   RECORD  ::= KEY|- ID|- n ENTRY*n   (KEY = the name the resolver knows the record under, ID = its `id` tag)
+///        ENTRY ::= REF|- RELSYM|- FITS RECIPSYM|- RFITS
 /// (REF = the tag's value when it is a Ref; RELSYM = the symbol the tag's def gives for the
 /// relationship; FITS = does it fit the term; RECIP… likewise for the reciprocal relationship).
 fn rel_request(rel: &Relation, subject_idx: usize, recs: &Recs) -> String {
@@ -216,6 +231,7 @@ fn rel_request(rel: &Relation, subject_idx: usize, recs: &Recs) -> String {
         None => true,
     };
     for rec in &recs.recs {
+        toks.push(key_token(rec));
         toks.push(ho_ref(rec.get_ref("id")));
         toks.push(rec.len().to_string());
         for (k, v) in rec.iter() {
@@ -302,8 +318,11 @@ pub fn exec(_label: &str, input: &str, out: &mut CaseOut) {
                 }
             };
             out.nontrivial = true;
-            let recs = Recs { recs };
             let ns = ns();
+            if recs.iter().any(|r| !r.has("id") && r.has("aka")) {
+                out.stat("ev:record-known-under-another-name");
+            }
+            let recs = Recs { recs };
             let mut hits = 0usize;
             for rec in &recs.recs {
                 let cx = EvalContext::make(rec, ns, &recs);
@@ -326,7 +345,7 @@ pub fn exec(_label: &str, input: &str, out: &mut CaseOut) {
                             vx::w_val(&cx.resolve(&w.id), &mut toks);
                             toks.push(recs.recs.len().to_string());
                             for r in &recs.recs {
-                                toks.push(ho_ref(r.get_ref("id")));
+                                toks.push(key_token(r));
                                 toks.push(((r.is_empty() || is_blank(r)) as u8).to_string());
                                 vx::w_val(&cx.resolve_for_dict(r, &w.id), &mut toks);
                             }
@@ -381,8 +400,11 @@ pub fn records(rng: &mut Rng) -> Vec<Dict> {
     let shape = rng.below(5);
     for i in 0..n {
         let mut d = Dict::new();
-        if !rng.chance(1, 12) {
+        if !rng.chance(1, 6) {
             d.insert("id".into(), Value::Ref(Ref { value: names[i].clone(), dis: if rng.chance(1, 3) { Some("D".into()) } else { None } }));
+        } else if rng.chance(3, 4) {
+            // no `id` of its own, yet the resolver finds it under its name
+            d.insert("aka".into(), Value::make_str(&names[i]));
         }
         for t in ref_tags {
             if rng.chance(2, 3) {
